@@ -161,6 +161,15 @@ def r2_push_is_all_or_nothing(ctx):
             if isinstance(a, ast.Try) and any(P.contains(s, loop) or s is loop for s in a.body):
                 for h in a.handlers:
                     pops = [c for c in P.calls(h) if isinstance(c.func, ast.Attribute) and c.func.attr == "pop_bindings"]
+                    # ... or the handler hands the Vars pushed so far to a module-level helper that pops them
+                    for c in P.calls(h):
+                        if isinstance(c.func, ast.Name) and c.args:
+                            hh = P.find_def(ctx.py(RT), c.func.id)
+                            if hh is not None and isinstance(hh, P.FUNC) and hh.args.args:
+                                p0 = hh.args.args[0].arg
+                                for lp in ast.walk(hh):
+                                    if isinstance(lp, ast.For) and p0 in P.names_read(lp.iter):
+                                        pops += [c2 for c2 in P.calls(lp) if isinstance(c2.func, ast.Attribute) and c2.func.attr == "pop_bindings"]
                     rer = any(isinstance(s, ast.Raise) for s in ast.walk(h))
                     if pops and rer and (h.type is None or P.un(h.type) in ("Exception", "BaseException")):
                         comp = True
